@@ -29,7 +29,8 @@ RULE = ('cases: every network of the golden table x {P2PKH, P2SH, P2WPKH, P2WSH,
 TRUSTED_BASE = ['golden/chainparams.json (address version bytes / HRPs: independent for bitcoin, testnet*, signet, litecoin*, dogecoin*; pinned from tree 074a788 for bitcoinlib_test, regtest, litecoin_legacy)',
                 'vf/refs/chain.py + vf/refs/codec.py (Base58Check, Bech32/Bech32m, segwit address rules; self-checked on BIP173/350 vectors)',
                 'vf/refs/secp256k1.py (public keys for the key-based sources)']
-ASSUMPTIONS = ['"different network" = the address version byte / HRP is not one of the transaction network\'s own constants; shared prefixes are not foreign',
+ASSUMPTIONS = ['an all-upper-case bech32 string is the same address (BIP173): on a foreign network it must be refused like the lower-case one; on its own network it must be accepted by every source that takes the string (Output/add_output, Address.parse with and without network, deserialize_address) with the exact script and report the string as typed or its lower-case form, never a mixed-case string; a well-formed bech32 address whose HRP belongs to no known network must be refused on every network',
+               '"different network" = the address version byte / HRP is not one of the transaction network\'s own constants; shared prefixes are not foreign',
                'a standard destination given as a lower-case address STRING of the right network must be accepted (a refusal there is a violation); '
                'for BIP350-valid future witness destinations (version >= 1 other than v1/32 bytes) a refusal is acceptable, a wrong script is not',
                'object sources (Address, HDKey): a refusal is tolerated and counted; an accepted object must yield exactly the script of the address string it shows',
@@ -37,7 +38,8 @@ ASSUMPTIONS = ['"different network" = the address version byte / HRP is not one 
                'script -> address for non-standard witness programs: reporting no address (or raising on .address) is acceptable, a different address is not - except for versions 1..16 with 20/32-byte programs: when address -> script yields the script, the script must report that address (inverse clause); '
                'the type label is judged only for the five standard types',
                'P2PK / bare multisig / nulldata outputs are not standard destinations of the statement: only their script bytes are checked when built from a public key']
-EXHAUSTIVE = ['prior calls on the same HDKey object (address() with every script_type x encoding, address_obj, hash160, wif, public, as_dict) x 3 witness types before it is used as output source, in every quick run',
+EXHAUSTIVE = ['UPPER-CASE bech32/bech32m strings for every ordered network pair (incl. own) x {p2wpkh, p2wsh, p2tr}, and addresses of unknown HRPs on every network, in every quick run',
+              'prior calls on the same HDKey object (address() with every script_type x encoding, address_obj, hash160, wif, public, as_dict) x 3 witness types before it is used as output source, in every quick run',
               'header-like payloads: first byte in {00, 51..60, 76, a9, 6a, 4c} x second byte in {len-2, 14, 20} x 5 standard types, both directions + hash / Address(hashed_data) sources, in every quick run',
               'networks x 5 standard types (string source, both entry points) in every quick run',
               'witness versions 0..16 x program lengths {20, 32} on every network in every quick run',
@@ -50,6 +52,7 @@ K_PARSE_WITVER = 'C05/address-object/parse-drops-witness-version'
 K_OBJ_TYPE = 'C05/address-object/output-uses-object-script-type-not-address-type'
 K_FOREIGN_OBJ = 'C05/foreign-network/address-object-or-hdkey-adopted-by-add-output'
 K_SHORTPROG = 'C05/script-to-addr/witness-program-misread-as-version-length-header'
+K_UPPER = 'C05/address-parse/upper-case-bech32-reencoded-with-mixed-case'      # fixed in bc2b8c2: named so that a recurrence is recognised
 K_PROGKEY = 'C05/script-to-addr/witness-program-that-is-a-public-key-reported-as-p2wpkh-of-key'
 
 NETS = chain.NETWORK_NAMES
@@ -62,8 +65,17 @@ def ref_address(net, case):
     p = bytes.fromhex(case['payload'])
     if case['enc'] == 'base58':
         return codec.b58check_encode(bytes.fromhex(chain.NETWORKS[net][case['type']]) + p)
-    return codec.bech32_encode(chain.NETWORKS[net]['hrp'], [case['witver']] + codec.convertbits(p, 8, 5),
-                               codec.BECH32_CONST if case['witver'] == 0 else codec.BECH32M_CONST)
+    a = codec.bech32_encode(case.get('hrp') or chain.NETWORKS[net]['hrp'], [case['witver']] + codec.convertbits(p, 8, 5),
+                            codec.BECH32_CONST if case['witver'] == 0 else codec.BECH32M_CONST)
+    # spelling variants that BIP173 allows for the same address: all upper case.  'hrp' = a well-formed address of NO known network.
+    return a.upper() if case.get('spelling') == 'upper' else a
+
+
+def _same_addr(got, addr, case):
+    """the address as typed, or - for an upper-case spelling - its canonical lower-case form; never a mixed-case string"""
+    if case.get('spelling') == 'upper' and isinstance(got, str):
+        return got in (addr, addr.lower())
+    return got == addr
 
 
 def ref_script(case):
@@ -173,6 +185,42 @@ class Fail:
         self.check, self.symptom, self.observed, self.expected = check, symptom, observed, expected
 
 
+def _eval_deserialize(case, addr, own, dt, prog):
+    """deserialize_address(string, network=N) called directly: the decoder every string source goes through"""
+    from bitcoinlib.keys import deserialize_address
+    N = case['network']
+    fails = []
+    try:
+        d = deserialize_address(addr, network=N)
+    except Exception as e:
+        if own and dt in STD:
+            fails.append(Fail('accept', 'refused-standard', '%s: %s' % (type(e).__name__, str(e)[:120]), {'address': addr}))
+        return 'refused', fails
+    if dt == 'badlen':
+        fails.append(Fail('refuse-badlen', 'accepted-bad-length', {'script': '', 'type': d.get('script_type')}, 'refusal'))
+        return 'accepted', fails
+    if N not in (d.get('networks') or []):
+        # the decoder's way of refusing a bech32 string for network N: N is not among the networks it reports (callers test exactly this)
+        if own and dt in STD:
+            fails.append(Fail('accept', 'refused-standard', {'networks': d.get('networks')}, {'address': addr, 'network': N}))
+        return 'refused', fails
+    if not own:
+        fails.append(Fail('refuse-foreign', 'accepted-foreign', {'script': '', 'address': d.get('address'), 'output_network': str(d.get('network'))},
+                          'refusal: %s is not an address of network %s' % (addr, N)))
+        return 'accepted', fails
+    if bytes(d['public_key_hash_bytes']) != prog:
+        fails.append(Fail('script', 'wrong-payload', bytes(d['public_key_hash_bytes']).hex(), prog.hex()))
+    if case['enc'] == 'segwit':
+        if d['witver'] != case['witver']:
+            fails.append(Fail('script', 'wrong-witver', d['witver'], case['witver']))
+        hrp = case.get('hrp') or chain.NETWORKS[case.get('addr_net', N)]['hrp']
+        if d['prefix'] not in (hrp, hrp.upper() if case.get('spelling') == 'upper' else hrp):
+            fails.append(Fail('address', 'wrong-prefix', d['prefix'], hrp))
+    if dt in STD and d['script_type'] != dt:
+        fails.append(Fail('type', 'wrong-type', d['script_type'], dt))
+    return 'accepted', fails
+
+
 def eval_dest(case):
     """-> (status, [Fail...]) ; status: 'accepted' | 'refused' ; no recording (used by ablation too)"""
     N = case['network']
@@ -184,6 +232,8 @@ def eval_dest(case):
     via = case.get('via', 'output')
     own = dt != 'badlen' and chain.address_network_ok(addr, N)
     fails = []
+    if src == 'deserialize':
+        return _eval_deserialize(case, addr, own, dt, prog)
     try:
         o = _make(via, N, address=_src_obj(case, addr))
         spk, typ, rep = _view(o)
@@ -191,7 +241,7 @@ def eval_dest(case):
         exc = '%s: %s' % (type(e).__name__, str(e)[:120])
         if dt == 'badlen' or not own:
             return 'refused', fails
-        if dt == 'future' or src != 'string':
+        if dt == 'future' or (src != 'string' and case.get('spelling') != 'upper'):
             return 'refused', fails                       # tolerated (see ASSUMPTIONS), counted by the caller
         fails.append(Fail('accept', 'refused-standard', exc, {'address': addr, 'script': ref_script(case).hex()}))
         return 'refused', fails
@@ -208,10 +258,10 @@ def eval_dest(case):
     if spk != want:
         fails.append(Fail('script', 'wrong-script', spk.hex(), want.hex()))
     if dt == 'future':
-        if rep not in (addr, ''):
+        if rep != '' and not _same_addr(rep, addr, case):
             fails.append(Fail('address', 'wrong-address', rep, addr))
     else:
-        if rep != addr:
+        if not _same_addr(rep, addr, case):
             fails.append(Fail('address', 'wrong-address', rep, addr))
         if typ != dt:
             fails.append(Fail('type', 'wrong-type', typ, dt))
@@ -222,9 +272,9 @@ def eval_dest(case):
         back = 'EXC %s' % type(e).__name__
     if dt == 'future':
         lenient = len(prog) not in (20, 32)      # 20/32-byte programs of versions 1..16: the accepted address must come back exactly
-        if spk == want and back != addr and not (lenient and (back == '' or back.startswith('EXC'))):
+        if spk == want and not _same_addr(back, addr, case) and not (lenient and (back == '' or back.startswith('EXC'))):
             fails.append(Fail('inverse', 'wrong-inverse', back, addr))
-    elif back != addr and spk == want:
+    elif not _same_addr(back, addr, case) and spk == want:
         fails.append(Fail('inverse', 'wrong-inverse', back, addr))
     return 'accepted', fails
 
@@ -234,6 +284,16 @@ def classify_dest(case, fail):
     prog = bytes.fromhex(case['payload'])
     feats = features_of(case)
     hrp = chain.NETWORKS[case.get('addr_net', case['network'])]['hrp']
+    if fail.check in ('address', 'object-address') and case.get('spelling') == 'upper' and case['enc'] == 'segwit' and isinstance(fail.observed, str):
+        # shape of the repaired defect: UPPER-case HRP kept, data re-encoded in lower case with a checksum over the upper-case HRP;
+        # ablation: the lower-case spelling of the same address passes this check
+        h = case.get('hrp') or hrp
+        mixed = codec.bech32_encode(h.upper(), [case['witver']] + codec.convertbits(prog, 8, 5), codec.BECH32_CONST if case['witver'] == 0 else codec.BECH32M_CONST)
+        if fail.observed == mixed and mixed != mixed.upper():
+            c2 = dict(case)
+            c2.pop('spelling')
+            if not any(f.check == fail.check for f in eval_dest(c2)[1]):
+                return K_UPPER
 
     def heals(feature):
         if feature not in feats:
@@ -329,7 +389,7 @@ def judge_dest(case, col):
     lcls = str(n) if n in (20, 32) else ('2-4' if n <= 4 else '5-40' if n <= 40 else '>40')
     vcls = ('v%d' % case['witver']) if case['enc'] == 'segwit' else case['type']
     cls = 'dest/%s/%s/%s' % (dt, 'own' if own else ('foreign' if dt != 'badlen' else 'badlen'), src)
-    col.case(cls, nontrivial=('dest', N, M if M != N else '', vcls, lcls, src, via), sample=case)
+    col.case(cls, nontrivial=('dest', N, M if M != N else '', vcls, lcls, src, via, case.get('spelling'), bool(case.get('hrp'))), sample=case)
     col.probe('addr_to_script')
     if not own and dt != 'badlen':
         col.probe('foreign_refusal')
@@ -779,6 +839,27 @@ def run_shard(spec, col):
                 if mine():
                     n = 32 if t in ('p2wsh', 'p2tr') else 20
                     judge_dest(dict(dest_for(t, rnd.randbytes(n)), kind='dest', network=N, addr_net=M, via=rnd.choice(['output', 'add_output'])), col)
+    # ---- (3b) legal spelling variants of bech32 strings: UPPER CASE for every ordered network pair (a foreign address stays foreign however it
+    #      is spelled; an own-network one may be refused or must give the exact script), and well-formed addresses of an unknown HRP
+    for N in NETS:
+        for M in NETS:
+            for t in ('p2wpkh', 'p2wsh', 'p2tr'):
+                if mine():
+                    n = 32 if t in ('p2wsh', 'p2tr') else 20
+                    judge_dest(dict(dest_for(t, rnd.randbytes(n)), kind='dest', network=N, addr_net=M, spelling='upper',
+                                    src=rnd.choice(['string', 'string', 'addr_parse', 'addr_parse_net', 'deserialize']),
+                                    via=rnd.choice(['output', 'add_output'])), col)
+        for src in ('string', 'addr_parse', 'addr_parse_net', 'deserialize'):
+            for t in ('p2wpkh', 'p2wsh', 'p2tr'):
+                if mine():
+                    n = 32 if t in ('p2wsh', 'p2tr') else 20
+                    judge_dest(dict(dest_for(t, rnd.randbytes(n)), kind='dest', network=N, spelling='upper', src=src, via=rnd.choice(['output', 'add_output'])), col)
+        for hrp in ('xyz', 'bc1', 'b', 'tbx', 'lnbc', 'BC'.lower() + 'c'):
+            if mine():
+                t = rnd.choice(['p2wpkh', 'p2wsh', 'p2tr'])
+                n = 32 if t in ('p2wsh', 'p2tr') else 20
+                judge_dest(dict(dest_for(t, rnd.randbytes(n)), kind='dest', network=N, hrp=hrp, spelling=rnd.choice([None, 'upper']),
+                                via=rnd.choice(['output', 'add_output'])), col)
     # ---- (4) random mix
     secrets = [rnd.randrange(1, ec.N) for _ in range(6)]
     for _ in range(spec['n_random']):
@@ -791,6 +872,10 @@ def run_shard(spec, col):
             c = dict(dest_for(t, _fix(_payload(rnd, n), n)), kind='dest', network=N, via=via, src=rnd.choice(['string', 'string', 'addr_parse', 'addr_parse_net']))
             if rnd.random() < 0.35:
                 c['addr_net'] = rnd.choice(NETS)
+            if rnd.random() < 0.12:
+                c['src'] = 'deserialize'
+            if c['enc'] == 'segwit' and rnd.random() < 0.3:
+                c['spelling'] = 'upper'          # every source that takes the string: Output/add_output, Address.parse (with/without network), deserialize_address
             judge_dest(c, col)
         elif r < 0.40:                                       # witness version x program length 2..40
             v = rnd.randint(0, 16)
